@@ -67,6 +67,7 @@ def make_ensemble(rng, r, n=None, d=None):
     d = d or int(rng.integers(2, 5))
     n = n or int(rng.integers(2, 6))
     cplx = bool(r % 2)
+    orbit = False
     form = ["vec1d", "col", "dm"][r % 3]
     if form == "dm":
         rhos = [gen.density(rng, d, int(rng.integers(1, d + 1)), cplx) for _ in range(n)]
@@ -74,6 +75,20 @@ def make_ensemble(rng, r, n=None, d=None):
         vecs = None
     else:
         vecs = [gen.unit(rng, d, cplx) for _ in range(n)]
+        if r % 8 == 5:
+            # a structured, non-generic ensemble: the orbit psi, U psi, U^2 psi, ... of one vector under a unitary with U^n != 1 and equal priors.  Its Gram
+            # matrix is constant along the diagonals but not circulant, so the pretty-good measurement is NOT optimal (it is for U^n = 1 only)
+            from scipy.linalg import expm
+
+            g_ = gen.rmat(rng, (d, d), cplx)
+            a_ = g_ - g_.conj().T
+            u_ = expm(float(rng.uniform(0.4, 1.5)) * a_ / np.linalg.norm(a_, 2))
+            n = max(n, d)
+            vecs = [gen.unit(rng, d, cplx)]
+            for _ in range(n - 1):
+                vecs.append(u_ @ vecs[-1])
+            vecs = [v / np.linalg.norm(v) for v in vecs]
+            orbit = True
         rhos = [np.outer(v, v.conj()) for v in vecs]
         inp = [v.copy() for v in vecs] if form == "vec1d" else [v.reshape(-1, 1).copy() for v in vecs]
         if (r // 6) % 3 == 1:  # row vectors (1, d): the third vector form accepted by matrix_ops.to_density_matrix
@@ -91,9 +106,11 @@ def make_ensemble(rng, r, n=None, d=None):
             rhos[0] = np.outer(vecs[0], vecs[0])
             inp[0] = vecs[0].copy() if form == "vec1d" else vecs[0].reshape(-1, 1).copy()
         form = form + "+real-first"
-    pk = (r // 3) % 4
+    pk = 0 if orbit else (r // 3) % 4
     p = gen.prior(rng, n, pk)
-    if (r // 5) % 4 == 3 and n >= 3:
+    if orbit:
+        form = form + "+orbit"
+    if (r // 5) % 4 == 3 and n >= 3 and not orbit:
         # the same state at two list positions with different priors (the ensemble is the one with the two weights added)
         i_, j_ = sorted(int(v) for v in rng.permutation(n)[:2])
         rhos[j_], inp[j_] = rhos[i_].copy(), inp[i_].copy()
